@@ -141,7 +141,10 @@ def run_property(mod: Any, ctx: Ctx, args: Any, t0: float) -> int:
     # 4. correspondence ------------------------------------------------------
     corr = CorrResult()
     corr_broken: List[str] = []
-    if hasattr(mod, 'correspondence') and not failing:
+    # a tie theorem in Props that no longer checks leaves the model itself (what the driver imports) built: the
+    # correspondence still runs then, and its disagreements steer the search for a failing input
+    model_built = all(n not in ('<dependency>', '<module>') for v in failing.values() for n in v)
+    if hasattr(mod, 'correspondence') and (not failing or model_built):
         try:
             with phase_limit(ctx, 'correspondence'):
                 corr = mod.correspondence(ctx)
